@@ -10,6 +10,154 @@ import Verif.Lemmas.C16EM
 import Mathlib.Order.Monotone.Basic
 
 namespace Verif.C16
+
+/-! ### the positivity lemmas of `Lemmas/C16` (section `pos`, zero entries allowed) for the generic model at ℝ — same text -/
+namespace Gen
+open Verif.Py
+
+section pos
+open Finset
+
+theorem sumK_nonneg (K : Nat) (f : Nat → ℝ) (h : ∀ i, i < K → 0 ≤ f i) : 0 ≤ sumK K f := by
+  rw [sumK_eq]; exact Finset.sum_nonneg (fun i hi => h i (Finset.mem_range.mp hi))
+
+/-- weights `u ≥ 0` with a positive total against strictly positive `b`: the weighted sum is positive -/
+theorem sumK_mul_pos (K : Nat) (u b : Nat → ℝ) (hu : ∀ j, j < K → 0 ≤ u j)
+    (hb : ∀ j, j < K → 0 < b j) (hs : 0 < sumK K u) : 0 < sumK K (fun j => u j * b j) := by
+  rw [sumK_eq] at hs ⊢
+  have hex : ∃ j ∈ range K, 0 < u j := by
+    by_contra hne
+    have : ∑ j ∈ range K, u j ≤ 0 :=
+      Finset.sum_nonpos (fun j hj => not_lt.mp (fun h => hne ⟨j, hj, h⟩))
+    exact absurd hs (not_lt.mpr this)
+  obtain ⟨j, hj, hpos⟩ := hex
+  exact Finset.sum_pos' (fun i hi => mul_nonneg (hu i (mem_range.mp hi)) (hb i (mem_range.mp hi)).le)
+    ⟨j, hj, mul_pos hpos (hb j (mem_range.mp hj))⟩
+
+/-- A forward step as the code leaves it for a model with probability weights and positive emissions. -/
+def GoodStep (K : Nat) (s : (Step ℝ)) : Prop :=
+  0 < s.c ∧ (∀ j, j < K → 0 ≤ atR s.alpha j) ∧ (∀ j, j < K → 0 < atR s.b j)
+
+theorem normStep_good (K : Nat) (a b : (List ℝ)) (ha : ∀ j, j < K → 0 ≤ atR a j)
+    (hc : 0 < sumK K (atR a)) (hb : ∀ j, j < K → 0 < atR b j) :
+    GoodStep K (normStep K a b) ∧ sumK K (atR (normStep K a b).alpha) = 1 ∧
+      ∀ j, j < K → 0 < atR a j → 0 < atR (normStep K a b).alpha j := by
+  have hc' : 0 < (normStep K a b).c := hc
+  refine ⟨⟨hc', ?_, hb⟩, normStep_sum K a b (ne_of_gt hc'), ?_⟩
+  · intro j hj; rw [normStep_alpha K a b j hj]; exact div_nonneg (ha j hj) hc'.le
+  · intro j hj h; rw [normStep_alpha K a b j hj]; exact div_pos h hc'
+
+theorem initStep_good (K : Nat) (pi : Nat → ℝ) (b0 : (List ℝ)) (hpi : ∀ i, i < K → 0 ≤ pi i)
+    (hs : 0 < sumK K pi) (hb : ∀ j, j < K → 0 < atR b0 j) :
+    GoodStep K (initStep K pi b0) ∧ sumK K (atR (initStep K pi b0).alpha) = 1 ∧
+      ∀ j, j < K → 0 < pi j → 0 < atR (initStep K pi b0).alpha j := by
+  unfold initStep
+  obtain ⟨h1, h2, h3⟩ := normStep_good K (tab K (fun j => pi j * atR b0 j)) b0
+    (fun j hj => by rw [atR_tab _ _ _ hj]; exact mul_nonneg (hpi j hj) (hb j hj).le)
+    (by rw [sumK_atR_tab]; exact sumK_mul_pos K pi (atR b0) hpi hb hs) hb
+  refine ⟨h1, h2, fun j hj hp => h3 j hj ?_⟩
+  rw [atR_tab _ _ _ hj]; exact mul_pos hp (hb j hj)
+
+theorem fwdStep_good (K : Nat) (A : Nat → Nat → ℝ) (prev b : (List ℝ))
+    (hA : ∀ i j, i < K → j < K → 0 ≤ A i j) (hrow : ∀ i, i < K → 0 < sumK K (A i))
+    (hprev : ∀ i, i < K → 0 ≤ atR prev i) (hsum : sumK K (atR prev) = 1)
+    (hb : ∀ j, j < K → 0 < atR b j) :
+    GoodStep K (fwdStep K A prev b) ∧ sumK K (atR (fwdStep K A prev b).alpha) = 1 := by
+  unfold fwdStep
+  have hu : ∀ j, j < K → 0 ≤ sumK K (fun i => atR prev i * A i j) := fun j hj =>
+    sumK_nonneg K _ (fun i hi => mul_nonneg (hprev i hi) (hA i j hi hj))
+  have hS : 0 < sumK K (fun j => sumK K (fun i => atR prev i * A i j)) := by
+    have e : sumK K (fun j => sumK K (fun i => atR prev i * A i j))
+        = sumK K (fun i => atR prev i * sumK K (A i)) := by
+      simp only [sumK_eq]
+      rw [Finset.sum_comm]
+      apply Finset.sum_congr rfl; intro i _; rw [Finset.mul_sum]
+    rw [e]
+    exact sumK_mul_pos K (atR prev) (fun i => sumK K (A i)) hprev hrow (by rw [hsum]; exact zero_lt_one)
+  obtain ⟨h1, h2, _⟩ := normStep_good K
+    (tab K (fun j => sumK K (fun i => atR prev i * A i j) * atR b j)) b
+    (fun j hj => by rw [atR_tab _ _ _ hj]; exact mul_nonneg (hu j hj) (hb j hj).le)
+    (by rw [sumK_atR_tab]; exact sumK_mul_pos K _ (atR b) hu hb hS) hb
+  exact ⟨h1, h2⟩
+
+theorem fwdFrom_good (K : Nat) (A : Nat → Nat → ℝ)
+    (hA : ∀ i j, i < K → j < K → 0 ≤ A i j) (hrow : ∀ i, i < K → 0 < sumK K (A i)) :
+    ∀ (bs : List (List ℝ)) (prev : (List ℝ)), (∀ i, i < K → 0 ≤ atR prev i) → sumK K (atR prev) = 1 →
+      (∀ b ∈ bs, ∀ j, j < K → 0 < atR b j) → ∀ s ∈ fwdFrom K A prev bs, GoodStep K s
+  | [], _, _, _, _ => by simp [fwdFrom]
+  | b :: bs, prev, hprev, hsum, hb => by
+    obtain ⟨hg, hs⟩ := fwdStep_good K A prev b hA hrow hprev hsum (hb b (by simp))
+    intro s hs'
+    simp only [fwdFrom, List.mem_cons] at hs'
+    rcases hs' with rfl | hs'
+    · exact hg
+    · exact fwdFrom_good K A hA hrow bs _ hg.2.1 hs (fun b' hb' => hb b' (by simp [hb'])) s hs'
+
+theorem atR_had (K : Nat) (a b : (List ℝ)) (i : Nat) (hi : i < K) : atR (had K a b) i = atR a i * atR b i := by
+  simp only [had]; rw [atR_tab _ _ _ hi]
+
+/-- `β̂ > 0`, `γ ≥ 0`, `ξ ≥ 0`, and `γ_t(i) > 0` where `α̂_t(i) > 0` (first time point of the suffix). -/
+theorem smooth_pos (K : Nat) (A : Nat → Nat → ℝ)
+    (hA : ∀ i j, i < K → j < K → 0 ≤ A i j) (hrow : ∀ i, i < K → 0 < sumK K (A i)) :
+    ∀ (rest : List (Step ℝ)) (s : (Step ℝ)), GoodStep K s → (∀ s' ∈ rest, GoodStep K s') →
+      (∀ i, i < K → 0 < atR (smooth K A s rest).1 i) ∧
+      (∀ g ∈ (smooth K A s rest).2.1, ∀ i, i < K → 0 ≤ atR g i) ∧
+      (∀ x ∈ (smooth K A s rest).2.2, ∀ i j, i < K → j < K → 0 ≤ atR (x.getD i []) j) ∧
+      (∀ i, i < K → 0 < atR s.alpha i → 0 < atR ((smooth K A s rest).2.1.headD []) i)
+  | [], s, hs, _ => by
+    simp only [smooth]
+    refine ⟨fun i hi => by rw [atR_tab _ _ _ hi]; exact zero_lt_one, ?_, by simp, ?_⟩
+    · intro g hg i hi
+      simp only [List.mem_singleton] at hg; subst hg
+      rw [atR_had K _ _ i hi, atR_tab _ _ _ hi, mul_one]; exact hs.2.1 i hi
+    · intro i hi h
+      simp only [List.headD_cons]
+      rw [atR_had K _ _ i hi, atR_tab _ _ _ hi, mul_one]; exact h
+  | s' :: rest, s, hs, hrest => by
+    have hs' : GoodStep K s' := hrest s' (by simp)
+    obtain ⟨ih1, ih2, ih3, _⟩ := smooth_pos K A hA hrow rest s' hs' (fun x hx => hrest x (by simp [hx]))
+    simp only [smooth]
+    generalize smooth K A s' rest = r at ih1 ih2 ih3 ⊢
+    have hβ : ∀ i, i < K → 0 < atR (backStep K A s' r.1) i := by
+      intro i hi
+      simp only [backStep]; rw [atR_tab _ _ _ hi]
+      refine div_pos ?_ hs'.1
+      have := sumK_mul_pos K (A i) (fun j => atR s'.b j * atR r.1 j) (fun j hj => hA i j hi hj)
+        (fun j hj => mul_pos (hs'.2.2 j hj) (ih1 j hj)) (hrow i hi)
+      refine lt_of_lt_of_eq this (sumK_congr _ _ _ (fun j _ => by ring))
+    refine ⟨hβ, ?_, ?_, ?_⟩
+    · intro g hg i hi
+      simp only [List.mem_cons] at hg
+      rcases hg with rfl | hg
+      · rw [atR_had K _ _ i hi]; exact mul_nonneg (hs.2.1 i hi) (hβ i hi).le
+      · exact ih2 g hg i hi
+    · intro x hx i j hi hj
+      simp only [List.mem_cons] at hx
+      rcases hx with rfl | hx
+      · rw [atR_xiOf K A _ _ _ i j hi hj]
+        exact div_nonneg (mul_nonneg (mul_nonneg (mul_nonneg (hs.2.1 i hi) (hA i j hi hj))
+          (hs'.2.2 j hj).le) (ih1 j hj).le) hs'.1.le
+      · exact ih3 x hx i j hi hj
+    · intro i hi h
+      simp only [List.headD_cons]
+      rw [atR_had K _ _ i hi]; exact mul_pos h (hβ i hi)
+
+theorem sumT_nonneg {α} (l : List α) (f : α → ℝ) (h : ∀ x ∈ l, 0 ≤ f x) : 0 ≤ sumT l f := by
+  unfold sumT
+  induction l with
+  | nil => simp
+  | cons x xs ih =>
+    simp only [List.map_cons, List.sum_cons]
+    exact add_nonneg (h x (by simp)) (ih (fun y hy => h y (by simp [hy])))
+
+theorem prodL_pos : ∀ l : List ℝ, (∀ x ∈ l, 0 < x) → 0 < prodL l
+  | [], _ => by simp [prodL]
+  | x :: xs, h => by
+    simp only [prodL]
+    exact mul_pos (h x (by simp)) (prodL_pos xs (fun y hy => h y (by simp [hy])))
+
+end pos
+end Gen
 namespace GenR
 open Verif.Py Finset Gen
 
@@ -519,6 +667,174 @@ theorem bw_step {K : ℕ} (hK : 0 < K) (x : List ℝ) (hT : 2 ≤ x.length) {t1 
       (fun t ht => lG t i ht hi) (fun t ht => lX t i j ht hi hj)
     rw [gaussB_length] at this
     rw [this, hstep]
+
+section zero
+open EM
+
+/-- the E-step of the algorithm over ℝ for probability weights with zero entries allowed -/
+theorem estep0 {K : ℕ} (π : ℕ → ℝ) (A : ℕ → ℕ → ℝ) (B : List (List ℝ))
+    (hπ : ∀ i, i < K → 0 ≤ π i) (hπs : 0 < Gen.sumK K π)
+    (hA : ∀ i j, i < K → j < K → 0 ≤ A i j) (hrow : ∀ i, i < K → 0 < Gen.sumK K (A i))
+    (hBpos : ∀ b ∈ B, ∀ j, j < K → 0 < Gen.atR b j) (r : Gen.FB ℝ)
+    (h : Gen.forwardBackward K π A B = some r) :
+    0 < r.likelihood ∧ r.likelihood = LR K B.length π A (tabRR B) ∧
+    r.gammas.length = B.length ∧ r.xis.length = B.length - 1 ∧
+    (∀ t i, t < B.length → i < K →
+      G K B.length π A (tabRR B) t i = Gen.atR (r.gammas.getD t []) i * r.likelihood) ∧
+    (∀ t i j, t + 1 < B.length → i < K → j < K →
+      X K B.length π A (tabRR B) t i j = Gen.atR ((r.xis.getD t []).getD i []) j * r.likelihood) ∧
+    (∀ g ∈ r.gammas, ∀ i, i < K → 0 ≤ Gen.atR g i) ∧
+    (∀ x ∈ r.xis, ∀ i j, i < K → j < K → 0 ≤ Gen.atR (x.getD i []) j) ∧
+    (∀ g ∈ r.gammas, Gen.sumK K (Gen.atR g) = 1) ∧
+    r.xis.map (Gen.rowSums K) = r.gammas.dropLast := by
+  cases B with
+  | nil => simp [Gen.forwardBackward] at h
+  | cons b0 bs =>
+    have hB : (b0 :: bs) ≠ [] := by simp
+    simp only [Gen.forwardBackward, Option.some.injEq] at h
+    subst h
+    obtain ⟨g0, s0, _⟩ := Gen.initStep_good K π b0 hπ hπs (hBpos b0 (by simp))
+    have hrest := Gen.fwdFrom_good K A hA hrow bs _ g0.2.1 s0 (fun b hb => hBpos b (by simp [hb]))
+    obtain ⟨_, k2, k3, _⟩ := Gen.smooth_pos K A hA hrow _ _ g0 hrest
+    have hc0 : (Gen.initStep K π b0).c ≠ 0 := ne_of_gt g0.1
+    have hcr : ∀ s' ∈ Gen.fwdFrom K A (Gen.initStep K π b0).alpha bs, s'.c ≠ 0 :=
+      fun s' hs' => ne_of_gt (hrest s' hs').1
+    have hL := Gen.likelihood_paths K π A b0 bs hc0 hcr
+    have hgl : (Gen.smooth K A (Gen.initStep K π b0)
+        (Gen.fwdFrom K A (Gen.initStep K π b0).alpha bs)).2.1.length = (b0 :: bs).length :=
+      Gen.smooth_gammas_length K A bs (Gen.initStep K π b0)
+    have hxi := Gen.smooth_xi K A (Gen.fwdFrom K A (Gen.initStep K π b0).alpha bs) (Gen.initStep K π b0)
+    refine ⟨?_, ?_, hgl, ?_, ?_, ?_, k2, k3, (Gen.smooth_gamma K A bs _ s0 hcr).2, hxi⟩
+    · simp only [Gen.FB.likelihood]
+      apply prodL_pos
+      intro x hx
+      obtain ⟨s, hs, rfl⟩ := List.mem_map.mp hx
+      simp only [List.mem_cons] at hs
+      rcases hs with rfl | hs
+      · exact g0.1
+      · exact (hrest s hs).1
+    · simp only [Gen.FB.likelihood]; rw [hL, likelihoodSpec_eq hB]
+    · have := congrArg List.length hxi
+      simp only [List.length_map, List.length_dropLast, hgl] at this
+      exact this
+    · intro t i ht hi
+      simp only [Gen.FB.likelihood]
+      rw [Gen.gamma_exact_aux K π A b0 bs hc0 hcr t ht i hi, pinnedSpec_eq hB ht]
+    · intro t i j ht hi hj
+      simp only [Gen.FB.likelihood]
+      rw [Gen.xi_exact_aux K π A b0 bs hc0 hcr t ht i j hi hj, pinned2Spec_eq hB ht]
+
+/-- probability weights with zero entries allowed: `π, A ≥ 0`, positive totals at most one, `v > 0` -/
+structure Inv0 (K : ℕ) (p : Params) : Prop where
+  pi_nonneg : ∀ i, i < K → 0 ≤ p.π i
+  A_nonneg : ∀ i j, i < K → j < K → 0 ≤ p.A i j
+  pi_tot : 0 < ∑ i ∈ range K, p.π i
+  A_tot : ∀ i, i < K → 0 < ∑ j ∈ range K, p.A i j
+  pi_sum : ∑ i ∈ range K, p.π i ≤ 1
+  A_sum : ∀ i, i < K → ∑ j ∈ range K, p.A i j ≤ 1
+  v_pos : ∀ j, j < K → 0 < p.v j
+
+/-- **One Baum–Welch iteration of the algorithm, zero probabilities allowed**: if the step does not
+    run into the two documented degenerate outcomes — a row of `A'` that is `0/0` (a state never
+    occupied before the last sample) or a re-estimated variance that is not positive — the
+    reported likelihood does not decrease and `π'` sums to one. -/
+theorem bw_step0 {K : ℕ} (x : List ℝ) (hT : 1 ≤ x.length) (p : Params) (hp : Inv0 K p)
+    (hrow' : ∀ i, i < K → 0 < ∑ j ∈ range K, (bwStep K x p).A i j)
+    (hvar' : ∀ j, j < K → 0 < (bwStep K x p).v j) :
+    bwLik K x p ≤ bwLik K x (bwStep K x p) ∧ 0 < bwLik K x p ∧
+    ∑ i ∈ range K, (bwStep K x p).π i = 1 := by
+  have hBne : gaussB K x p.μ p.v ≠ [] := by
+    intro h; have := gaussB_length K x p.μ p.v; rw [h] at this; simp at this; omega
+  obtain ⟨r, hr⟩ := fb_some K p.π p.A _ hBne
+  obtain ⟨eL0, eL, egl, exl, eG, eX, eγ, eξ, eγ1, exi⟩ :=
+    estep0 p.π p.A _ hp.pi_nonneg (by rw [Gen.sumK_eq]; exact hp.pi_tot) hp.A_nonneg
+      (fun i hi => by rw [Gen.sumK_eq]; exact hp.A_tot i hi) (gaussB_pos K x p.μ p.v) r hr
+  rw [gaussB_length] at egl exl eG eX eL
+  have hLne : r.likelihood ≠ 0 := ne_of_gt eL0
+  have hdl : x.length = (gaussB K x p.μ p.v).length := (gaussB_length _ _ _ _).symm
+  have hstep : bwStep K x p = ⟨Gen.atR (Gen.updPi r.gammas), Gen.fnOfRows (Gen.updA K r.gammas r.xis),
+      Gen.atR (Gen.updMean K r.gammas x), Gen.atR (Gen.updVar K r.gammas x)⟩ := by
+    simp only [bwStep, hr]
+  have hlik : bwLik K x p = r.likelihood := by simp only [bwLik, hr]
+  have hγne : r.gammas ≠ [] := by intro h; rw [h] at egl; simp at egl; omega
+  have hmem : Gen.updPi r.gammas ∈ r.gammas := by
+    cases hg : r.gammas with
+    | nil => exact absurd hg hγne
+    | cons g gs => simp [Gen.updPi]
+  have hπ' : ∀ i, i < K → 0 ≤ Gen.atR (Gen.updPi r.gammas) i := fun i hi => eγ _ hmem i hi
+  have hπ1 : ∑ i ∈ range K, Gen.atR (Gen.updPi r.gammas) i = 1 := by
+    rw [← Gen.sumK_eq]; exact eγ1 _ hmem
+  have hA' : ∀ i j, i < K → j < K → 0 ≤ Gen.fnOfRows (Gen.updA K r.gammas r.xis) i j := by
+    intro i j hi hj
+    unfold Gen.fnOfRows Gen.updA
+    rw [getD_tab _ _ _ _ hi, Gen.atR_tab _ _ _ hj]
+    exact div_nonneg (Gen.sumT_nonneg _ _ (fun y hy => eξ y hy i j hi hj))
+      (Gen.sumT_nonneg _ _ (fun g hg => eγ g (List.mem_of_mem_dropLast hg) i hi))
+  let xf : ℕ → ℝ := fun t => x.getD t 0
+  have lG : ∀ t i, t < (gaussB K x p.μ p.v).length → i < K →
+      G K (gaussB K x p.μ p.v).length p.π p.A (tabRR (gaussB K x p.μ p.v)) t i
+        = Gen.atR (r.gammas.getD t []) i * r.likelihood := by
+    intro t i ht hi; rw [gaussB_length] at ht ⊢; exact eG t i ht hi
+  have lX : ∀ t i j, t + 1 < (gaussB K x p.μ p.v).length → i < K → j < K →
+      X K (gaussB K x p.μ p.v).length p.π p.A (tabRR (gaussB K x p.μ p.v)) t i j
+        = Gen.atR ((r.xis.getD t []).getD i []) j * r.likelihood := by
+    intro t i j ht hi hj; rw [gaussB_length] at ht ⊢; exact eX t i j ht hi hj
+  have egl' : r.gammas.length = (gaussB K x p.μ p.v).length := by rw [gaussB_length]; exact egl
+  have exl' : r.xis.length = (gaussB K x p.μ p.v).length - 1 := by rw [gaussB_length]; exact exl
+  have hmean : ∀ j, j < K → Gen.atR (Gen.updMean K r.gammas x) j
+      = newMuB K x.length p.π p.A (tabRR (gaussB K x p.μ p.v)) xf j := by
+    intro j hj
+    have := mean_link (B := gaussB K x p.μ p.v) r.gammas x r.likelihood hLne egl' hdl hj
+      (fun t ht => lG t j ht hj)
+    rw [gaussB_length] at this; exact this
+  have hvar : ∀ j, j < K → Gen.atR (Gen.updVar K r.gammas x) j
+      = newVarB K x.length p.π p.A (tabRR (gaussB K x p.μ p.v)) xf j := by
+    intro j hj
+    have := var_link (B := gaussB K x p.μ p.v) r.gammas x r.likelihood hLne egl' hdl hj
+      (fun t ht => lG t j ht hj)
+    rw [gaussB_length] at this; exact this
+  have hT0 : 0 < x.length := by omega
+  refine ⟨?_, by rw [hlik]; exact eL0, by rw [hstep]; exact hπ1⟩
+  -- the new model through its own E-step
+  have hBne' : gaussB K x (bwStep K x p).μ (bwStep K x p).v ≠ [] := by
+    intro h; have := gaussB_length K x (bwStep K x p).μ (bwStep K x p).v; rw [h] at this; simp at this; omega
+  obtain ⟨r', hr'⟩ := fb_some K (bwStep K x p).π (bwStep K x p).A _ hBne'
+  have hnewπ : ∀ i, i < K → 0 ≤ (bwStep K x p).π i := by rw [hstep]; exact hπ'
+  have hnewA : ∀ i j, i < K → j < K → 0 ≤ (bwStep K x p).A i j := by rw [hstep]; exact hA'
+  have hnewπs : 0 < Gen.sumK K (bwStep K x p).π := by
+    rw [Gen.sumK_eq, hstep]; show 0 < ∑ i ∈ range K, Gen.atR (Gen.updPi r.gammas) i
+    rw [hπ1]; exact zero_lt_one
+  obtain ⟨_, eL', _⟩ := estep0 (bwStep K x p).π (bwStep K x p).A _ hnewπ hnewπs hnewA
+    (fun i hi => by rw [Gen.sumK_eq]; exact hrow' i hi) (gaussB_pos K x _ _) r' hr'
+  rw [gaussB_length] at eL'
+  have hlik' : bwLik K x (bwStep K x p) = r'.likelihood := by simp only [bwLik, hr']
+  rw [hlik, hlik', eL, eL']
+  have key := em_gauss_tables (x := xf) (μ := p.μ) (v := p.v)
+    (tabRR (gaussB K x p.μ p.v)) (tabRR (gaussB K x (bwStep K x p).μ (bwStep K x p).v)) hT0
+    hp.pi_nonneg hp.A_nonneg hp.pi_sum hp.A_sum hp.v_pos
+    (fun t j ht hj => tabRR_gaussB K x p.μ p.v ht hj)
+    (fun t j ht hj => by
+      rw [tabRR_gaussB K x _ _ ht hj, hstep]
+      show gaussR (x.getD t 0) (Gen.atR (Gen.updMean K r.gammas x) j) (Gen.atR (Gen.updVar K r.gammas x) j) = _
+      rw [hmean j hj, hvar j hj])
+    (fun j hj _ => by
+      have := hvar' j hj
+      rw [hstep] at this
+      rw [← hvar j hj]; exact this)
+  refine le_trans key (le_of_eq ?_)
+  apply LR_congr hT0
+  · intro i hi
+    have := pi_link (B := gaussB K x p.μ p.v) r.gammas r.likelihood hLne
+      (by rw [gaussB_length]; exact eL.symm) (lG 0 i (by rw [gaussB_length]; exact hT0) hi)
+    rw [gaussB_length] at this
+    rw [this, hstep]
+  · intro i j hi hj
+    have := A_link (B := gaussB K x p.μ p.v) r.gammas r.xis r.likelihood hLne exl' egl' hi hj
+      (fun t ht => lG t i ht hi) (fun t ht => lX t i j ht hi hj)
+    rw [gaussB_length] at this
+    rw [this, hstep]
+
+end zero
 
 /-- **Every Baum–Welch iteration**: the hypotheses of `bw_step` are re-established by the step
     itself, so the likelihoods the algorithm reports along the iterations never decrease. -/
